@@ -20,7 +20,7 @@ for n in $NAMES; do
   P="$HERE/selftest/X03/$n.patch"
   git -C "$WT" apply "$P" || { echo "MUTANT $n: patch does not apply"; RC=2; continue; }
   OUT=$(cd "$HERE" && VERIF_OUT="$OUTD" VERIF_REPO="$WT" ./check X03 --tier quick 2>&1)
-  CL=$(echo "$OUT" | grep '^VIOLATION' | sed 's/.*clause=//' | sort | uniq -c | tr '\n' ' ')
+  CL=$(echo "$OUT" | grep 'violated clause' | awk '{print $3}' | sort -u | tr '\n' ' ')
   if echo "$OUT" | grep -q '^VIOLATION'; then echo "MUTANT $n: CAUGHT  $CL"; else echo "MUTANT $n: MISSED"; echo "$OUT" | tail -3; RC=1; fi
   git -C "$WT" apply -R "$P"
 done
